@@ -223,8 +223,8 @@ def run_check(a, prop, spec, workdir, seed, t_start):
                     val_mismatch.append({'instance': key, 'status': st, 'inputs': v['inputs'], 'engine_notes': v['notes'], 'native_notes': notes, 'output': out[-600:]})
             else:
                 v['native'] = st
-                if v['kind'] == 'uninit':
-                    ubn.append(v)
+                if v['kind'] == 'uninit' and st in ('ok', 'assume'):
+                    ubn.append(v)        # read of uninitialised memory the sanitizers cannot see: reported as a note
                 elif st in ('assert', 'sanitizer') or st.startswith('crash') or (st == 'timeout' and v['kind'] == 'nontermination'):
                     v['native_output'] = out[-1500:]
                     confirmed.append((key, v))
